@@ -5792,11 +5792,9 @@ func (c *linkerContext) generateChunkJS(chunkIndex int, chunkWaitGroup *sync.Wai
 				if fileRepr := c.graph.Files[chunk.sourceIndex].InputFile.Repr.(*graph.JSRepr); fileRepr.Meta.Wrap == graph.WrapCJS {
 					aliases = []string{"default"}
 				} else {
-					resolvedExports := fileRepr.Meta.ResolvedExports
-					aliases = make([]string, 0, len(resolvedExports))
-					for alias := range resolvedExports {
-						aliases = append(aliases, alias)
-					}
+					// Use the same list that the export statement is generated from. This
+					// omits ambiguous re-exports, which are removed from the output file.
+					aliases = append(aliases, fileRepr.Meta.SortedAndFilteredExportAliases...)
 				}
 			} else {
 				aliases = make([]string, 0, len(chunkRepr.exportsToOtherChunks))
